@@ -8,6 +8,7 @@ what the sum-type spec prescribes; `etl::optional` and `etl::expected` are simul
 arbitrary element operator tables.
 -/
 import TetlProofs.C07.Lemmas
+import TetlProofs.C07.FlatKey
 import TetlProofs.C07.Select
 import TetlProofs.C07.SelectK
 namespace Tetl.C07.Props
@@ -39,6 +40,53 @@ theorem visit2_active (c : Cfg) (a b : V α) (ha : a.idx < c.n) (hb : b.idx < c.
   simp [visit2, visit_dispatch _ _ hv, getAt]
 
 example : (⟨1, 7⟩ : V Nat).idx < (⟨2, false, false, false, false⟩ : Cfg).n := by decide
+
+/-- [variant.visit] for any number of arguments, each with its OWN number of alternatives (`(variant_size, variant)` pairs; a
+    non-variant argument has size 1): `etl::visit` / `etl::visit_with_index` never fail (the `next_seq` recursion terminates
+    within `prod sizes` instantiations, no `get<I>` meets `I != index()`) and the visitor receives exactly the tuple of the
+    active alternatives - index and value of every argument, in argument order. -/
+theorem visitN_active (vs : List (Nat × V α)) (h : ∀ p ∈ vs, p.2.idx < p.1) :
+    visitN vs = .ok (Spec.visitN (vs.map (·.2))) := by
+  have hv := validIdx_of_forall vs h
+  unfold visitN
+  rw [visit_dispatch _ _ hv]
+  simp only [bind, Except.bind, List.length_map, ne_eq, not_true_eq_false, if_false]
+  exact mapM_getAt_active vs
+
+/-- non-vacuity: variant<A,B,C> holding A, variant<X,Y> holding Y, a non-variant argument -/
+example : ∀ p ∈ [((3 : Nat), (⟨0, 5⟩ : V Nat)), (2, ⟨1, 6⟩), (1, ⟨0, 7⟩)], p.2.idx < p.1 := by decide
+example : visitN [((3 : Nat), (⟨0, 5⟩ : V Nat)), (2, ⟨1, 6⟩), (1, ⟨0, 7⟩)] = .ok [(0, 5), (1, 6), (0, 7)] := rfl
+
+/-! ### sensitivity: a dispatcher comparing one flattened position (seeded change C07-r3-visit-flat-index)
+
+`FlatKey.flatVisit` is `visit_with_index` with `flat_index(m, index(vs)...) == flat_index(m, Is...)` in place of the tuple
+comparison, the key being `stride *= M_k; flat += i_k * stride` from left to right.  `visit_dispatch` / `visitN_active` hold
+for the real dispatcher and not for this one; the three theorems say on which inputs the two differ. -/
+
+/-- variant<A,B,C> holding A and variant<X,Y> holding Y: the flattened dispatcher calls the visitor with (C, X) - two
+    inactive alternatives - where the real one calls it with (A, Y) -/
+theorem visit_flat_key_counterexample :
+    FlatKey.flatVisit [3, 2] [0, 1] = .ok [2, 0] ∧ visitWithIndex [3, 2] [0, 1] = .ok [0, 1] := ⟨rfl, rfl⟩
+
+/-- wherever an argument with `a` alternatives is followed by one with fewer (`2 ≤ b < a`), two different valid index tuples
+    share a flattened key (so the one tried later is dispatched to the other's alternatives) -/
+theorem visit_flat_key_collides (pre suf : List Nat) (a b : Nat) (hb : 2 ≤ b) (hab : b < a)
+    (hpre : ∀ m ∈ pre, 0 < m) (hsuf : ∀ m ∈ suf, 0 < m) :
+    let sizes := pre ++ a :: b :: suf
+    let x := zeros pre ++ b :: 0 :: zeros suf
+    let y := zeros pre ++ 0 :: 1 :: zeros suf
+    validIdx x sizes = true ∧ validIdx y sizes = true ∧ x ≠ y ∧ FlatKey.flatKey sizes x = FlatKey.flatKey sizes y :=
+  FlatKey.flatKey_collides pre suf a b hb hab hpre hsuf
+
+example : (2 : Nat) ≤ 2 ∧ 2 < 3 ∧ (∀ m ∈ ([4] : List Nat), 0 < m) ∧ (∀ m ∈ ([] : List Nat), 0 < m) := by decide
+
+/-- alternative counts that never decrease from left to right (single variants, equal types - everything the library and its
+    tests do -, 2 x 3): the flattened dispatcher answers what the real one answers, which is why such inputs cannot tell the two apart -/
+theorem visit_flat_key_ok_of_sorted (sizes act : List Nat) (hs : sizes.Pairwise (· ≤ ·)) (h : validIdx act sizes = true) :
+    FlatKey.flatVisit sizes act = visitWithIndex sizes act := by
+  rw [FlatKey.flatVisit_ok_of_sorted sizes act hs h, visit_dispatch sizes act h]
+
+example : ([2, 3, 3] : List Nat).Pairwise (· ≤ ·) ∧ validIdx [1, 2, 0] [2, 3, 3] = true := by decide
 
 theorem destroy_ok (c : Cfg) (v : V α) (h : v.idx < c.n) : destroy c v = .ok () := by
   simp [destroy, visit1_active c v h]
